@@ -85,6 +85,10 @@ _de += [
       "a 21-character decimal string key (longer than any 64-bit spelling) read as u128 is parsed and handed over", kind="bounded", bound="1 concrete literal of 21 characters", timeout=300),
     H("key_u128_from_21_digit_strings", "C13.K.key.u128_21_digits", DE, ["Deserializer<'de> for KeyDeserializer::macro deserialize_parse"],
       "every 21-digit decimal string key read as u128 yields its numeric value", kind="bounded", bound="all 21-digit decimal strings", timeout=300),
+    H("key_option_and_newtype_views", "C13.K.key.option_newtype", DE, ["Deserializer<'de> for KeyDeserializer::deserialize_option", "Deserializer<'de> for KeyDeserializer::deserialize_newtype_struct"],
+      "optional keys (null -> None, otherwise Some via the key deserializer) and derive-shaped newtype keys keep their value", timeout=150),
+    H("key_unit_variant_enum_view", "C13.K.key.enum", DE, ["Deserializer<'de> for KeyDeserializer::deserialize_enum", "EnumAccess<'de> for KeyDeserializer::variant_seed", "VariantAccess<'de> for UnitVariantDeserializer::unit_variant"],
+      "enum map keys: the string form is viewed as that unit variant", timeout=150),
     H("key_i32_from_string_len3", "C13.K.key.i32_string", DE, ["Deserializer<'de> for KeyDeserializer::macro deserialize_parse"],
       "string keys of <= 3 bytes read as i32 agree with str::parse", kind="bounded", bound="strings of <= 3 bytes", timeout=400),
 ]
